@@ -91,7 +91,7 @@ theorem PI_none (o : Options) (ext : Ext) (h0 : o.overwrites = []) : PI o ext .n
   rw [absorb_none] at h; cases h
   have hn : t2.nullable = true := hs.keeps.1 (mark_nullable_nullable t)
   have hu : isUnionDT f.dataType = false := by
-    simpa [hits, exclAny, nullAtEnum, dateLookalike, u64AboveI64, dataLessNewtype, unitStructAtValue] using hex
+    simpa [hits, exclAny, nullAtEnum, dateLookalike, u64AboveI64, dataLessNewtype] using hex
   exact ⟨.null, by rw [interpDT]; exact interpNull_of_nullable h0 hf hn hu⟩
 
 theorem PI_some (o : Options) (ext : Ext) (v : SVal) (ih : PI o ext v) : PI o ext (.some v) := by
